@@ -1,7 +1,7 @@
 (* C08  Bytes sent to the terminal arrive once, in order, or the loss is flagged.
    The port model is polymorphic in the payload: the theorems hold for bytes carrying any ghost tag. *)
 From Coq Require Import ZArith List Bool.
-From Dmd Require Import Model.Bits Model.Fifo Model.Mem Model.Duart Proofs.FifoProofs Proofs.PortProofs Proofs.DuartProofs Proofs.DeviceRefine.
+From Dmd Require Import Model.Bits Model.Fifo Model.Mem Model.Duart Proofs.FifoProofs Proofs.PortProofs Proofs.DuartProofs Proofs.DeviceRefine Model.Bus Proofs.BusDuart.
 Import ListNotations.
 Open Scope Z_scope.
 
@@ -100,3 +100,25 @@ Theorem C08_device_delivered_is_subsequence_of_queued :
     let '(_, E', D') := drx_run b ops (duart_new tm) [] [] in subseq D' E'.
 Proof. exact device_rx_delivered_subseq. Qed.
 Print Assumptions C08_device_delivered_is_subsequence_of_queued.
+
+(* ---- and at guest addresses (Proofs/BusDuart.v) ---- *)
+
+(* every guest data access -- byte, halfword or word, read or write, at any address with any value -- acts on the
+   DUART as the device operations the address decode names (one register read or write when it is aligned and lands
+   in 0x200000..0x20003f; a halfword at a is the register at a+2, a word the register at a+3) and otherwise leaves the
+   DUART exactly as it was *)
+Theorem C08_bus_access_is_device_operation :
+  forall (x : bacc) (b : bus), duart_ (bus_do x b) = drun (bacc_dops x) (duart_ b).
+Proof. exact bus_do_duart. Qed.
+Print Assumptions C08_bus_access_is_device_operation.
+
+(* from power-on, over every interleaving of guest bus accesses with host enqueues and polls, service calls,
+   interrupt polls and mouse events: what the guest read at a channel's receive register while its status showed
+   RxRDY is an in-order subsequence of what the host queued for that channel *)
+Theorem C08_guest_rx_delivered_is_subsequence_of_queued :
+  forall (chan : bool) (ops : list sysop) (now : Z),
+    forallb (dev_no_lb chan) (flat_map sys_dops ops) = true ->
+    let '(d', E', D') := drx_run chan (flat_map sys_dops ops) (duart_ (bus_new now)) [] [] in
+    subseq D' E' /\ d' = duart_ (fold_left (fun s o => sys_step o s) ops (bus_new now)).
+Proof. exact guest_rx_delivered_subseq. Qed.
+Print Assumptions C08_guest_rx_delivered_is_subsequence_of_queued.
